@@ -247,6 +247,71 @@ def hoist(repo, rel, outer, prefix):
             + text[s:e] + "\n// ---- end of hoisted item ----")
 
 
+def _fn_body_span(text, rel, outer):
+    heads = [m for m in re.finditer(r"^[ \t]*(?:pub(?:\([^)]*\))?\s+)?fn " + re.escape(outer) + r"\b", text, re.M)]
+    if len(heads) != 1:
+        raise Undecided(f"anchor lost: fn {outer} occurs {len(heads)} times in {rel}")
+    i = heads[0].end()
+    while i < len(text):
+        j = _skip_noncode(text, i)
+        if j != i:
+            i = j
+            continue
+        if text[i] == "{":
+            break
+        if text[i] == ";":
+            raise Undecided(f"anchor lost: fn {outer} in {rel} has no body")
+        i += 1
+    return i + 1, _balanced_end(text, i) - 1
+
+
+def hoist_expr(repo, rel, outer, prefix, strip):
+    """`//@hoist-expr <file> | <outer fn> | <line prefix> | <leading text to drop>`: the block-like
+    EXPRESSION (`match .. {..}`, `if .. {..} else {..}`) that follows `strip` on the unique line of the
+    body of fn `outer` that starts with `prefix`, verbatim, up to the end of its balanced braces
+    (`else` continuations included). Dropped: everything else of the enclosing function; the free
+    variables of the expression become the parameters of the wrapper the directive is placed in (a
+    free variable the wrapper does not bind => the harness does not compile => UNDECIDED)."""
+    p = repo / rel
+    if not p.exists():
+        raise Undecided(f"anchor lost: file {rel}")
+    text = p.read_text()
+    lo, hi = _fn_body_span(text, rel, outer)
+    hits, pos = [], lo
+    for line in text[lo:hi].split("\n"):
+        if line.strip().startswith(prefix):
+            hits.append(pos + (len(line) - len(line.lstrip())))
+        pos += len(line) + 1
+    if len(hits) != 1:
+        raise Undecided(f"anchor lost: {rel}::{outer}: a line starting with {prefix!r} occurs {len(hits)} times")
+    start = hits[0]
+    if not text.startswith(strip, start):
+        raise Undecided(f"anchor lost: {rel}::{outer}: {prefix!r} does not start with {strip!r}")
+    start += len(strip)
+    i = start
+    end = None
+    while i < hi:
+        j = _skip_noncode(text, i)
+        if j != i:
+            i = j
+            continue
+        if text[i] in ";,":
+            break
+        if text[i] == "{":
+            end = _balanced_end(text, i)
+            m = re.match(r"\s*else\b", text[end:hi])
+            if m:
+                i = end + len(m.group(0))
+                continue
+            break
+        i += 1
+    if end is None:
+        raise Undecided(f"anchor lost: {rel}::{outer}: the expression after {prefix!r} is not block-like")
+    line = text.count("\n", 0, start) + 1
+    return (f"// ---- hoisted verbatim from {rel}:{line} (expression inside fn {outer}) ----\n"
+            + text[start:end].strip() + "\n// ---- end of hoisted expression ----")
+
+
 ITEM_START = re.compile(r"(?:pub(?:\([^)]*\))?\s+)?(?:use|fn|struct|enum|impl|const|static|type|trait|mod|unsafe\s+impl|unsafe\s+fn)\b")
 
 
@@ -357,5 +422,11 @@ def expand_hoists(src, repo):
         if len(parts) != 2:
             raise Undecided(f"bad //@hoist-all directive: {m.group(0)!r}")
         return hoist_all(repo, parts[0], parts[1])
+    def rep_expr(m):
+        parts = [x.strip() for x in m.group(1).split("|")]
+        if len(parts) != 4:
+            raise Undecided(f"bad //@hoist-expr directive: {m.group(0)!r}")
+        return hoist_expr(repo, *parts)
+    src = re.sub(r"^//@hoist-expr (.*)$", rep_expr, src, flags=re.M)
     src = re.sub(r"^//@hoist-all (.*)$", rep_all, src, flags=re.M)
     return re.sub(r"^//@hoist (.*)$", rep, src, flags=re.M)
